@@ -23,9 +23,27 @@ def build_native(name, sources, extra_flags=(), timeout=900):
     """Compile a native driver against the current /repo tree into .work/bin. Returns path or raises."""
     os.makedirs(BIN, exist_ok=True)
     out = os.path.join(BIN, name)
-    cmd = ["g++", "-std=c++17", "-O0", "-g0", "-w", "-DOPENTELEMETRY_ABI_VERSION_NO=1",
-           "-I%s/api/include" % core.REPO, "-I%s/sdk/include" % core.REPO, "-I%s/sdk" % core.REPO,
-           "-I%s" % os.path.join(core.HERE, "prelude")] + list(extra_flags) + list(sources) + ["-o", out, "-lpthread"]
+    base = ["g++", "-std=c++17", "-O0", "-g0", "-w", "-DOPENTELEMETRY_ABI_VERSION_NO=1",
+            "-I%s/api/include" % core.REPO, "-I%s/sdk/include" % core.REPO, "-I%s/sdk" % core.REPO,
+            "-I%s" % os.path.join(core.HERE, "prelude")] + list(extra_flags)
+    sources = list(sources)
+    if len(sources) > 3:
+        # many translation units of the current tree: compile them side by side
+        from concurrent.futures import ThreadPoolExecutor
+        odir = os.path.join(BIN, name + ".o.d")
+        os.makedirs(odir, exist_ok=True)
+
+        def cc(i_src):
+            i, src = i_src
+            o = os.path.join(odir, "%d.o" % i)
+            p = subprocess.run(base + ["-c", src, "-o", o], stdout=subprocess.PIPE, stderr=subprocess.PIPE, text=True, timeout=timeout)
+            if p.returncode != 0:
+                raise RuntimeError("native driver build failed: %s" % p.stderr[-2000:])
+            return o
+        with ThreadPoolExecutor(max_workers=min(8, len(sources))) as ex:
+            objs = list(ex.map(cc, enumerate(sources)))
+        sources = objs
+    cmd = base + sources + ["-o", out, "-lpthread"]
     p = subprocess.run(cmd, stdout=subprocess.PIPE, stderr=subprocess.PIPE, text=True, timeout=timeout)
     if p.returncode != 0:
         raise RuntimeError("native driver build failed: %s" % p.stderr[-2000:])
